@@ -1526,15 +1526,44 @@ impl<'de, 'e> de::Deserializer<'de> for YamlDeserializer<'de, 'e> {
                 value,
                 ..
             }) => {
+                // The same scalars are strings here as for `deserialize_string`: a borrowed
+                // target accepts what the owned one accepts, and sees the same text.
                 // Check for null - not valid for string deserialization
-                if tag == &SfTag::Null
-                    || (tag != &SfTag::Binary && scalar_is_nullish(value, style))
+                if (tag == &SfTag::Null || scalar_is_nullish(value, style))
+                    && tag != &SfTag::String
+                    && tag != &SfTag::Binary
                 {
                     let loc = *location;
                     let _ = self.ev.next()?;
                     return Err(Error::NullIntoString { location: loc });
                 }
-                *location
+                if self.cfg.no_schema && maybe_not_string(value, style) && tag != &SfTag::String {
+                    let (value, _tag, location) = self.take_scalar_event()?;
+                    return Err(Error::quoting_required(&value).with_location(location));
+                }
+                let location = *location;
+                if *tag == SfTag::Binary && !self.cfg.ignore_binary_tag_for_string {
+                    // The text is the decoded payload, which is not part of the input: owned
+                    // visitors receive it, `&str` cannot borrow it.
+                    let decoded = self.take_string_scalar()?;
+                    return visitor.visit_string::<Error>(decoded).map_err(|err| {
+                        if err.to_string().contains("expected a borrowed string") {
+                            Error::cannot_borrow_transformed(
+                                TransformReason::ParserReturnedOwned,
+                            )
+                            .with_location(location)
+                        } else {
+                            err
+                        }
+                    });
+                }
+                if !tag.can_parse_into_string()
+                    && *tag != SfTag::NonSpecific
+                    && *tag != SfTag::Binary
+                {
+                    return Err(Error::TaggedScalarCannotDeserializeIntoString { location });
+                }
+                location
             }
             Some(other) => {
                 return Err(Error::unexpected("string scalar").with_location(other.location()));
